@@ -503,6 +503,9 @@ func (e evalOut) kind() string {
 	return "multi"
 }
 
+// fixedNow is the instant every harness evaluation runs at.
+var fixedNow = time.Date(2024, 2, 29, 23, 59, 58, 987e6, time.FixedZone("+05:30", 19800))
+
 type cacheEntry struct {
 	e   *fhirpath.Expression
 	err error
@@ -548,6 +551,7 @@ func evalWith(src string, res []fhir.Resource, vars map[string]any, copts ...fhi
 	for _, k := range names {
 		eopts = append(eopts, evalopts.EnvVariable(k, vars[k]))
 	}
+	eopts = append(eopts, evalopts.OverrideTime(fixedNow)) // no wall clock inside a property
 	var out evalOut
 	o := guard(func() { out.Coll, out.Err = e.Evaluate(res, eopts...) })
 	out.Panic, out.Stack = o.Panic, o.Stack
